@@ -22,8 +22,9 @@ RULES = {
     'R8': 'the buffer the decoder rebuilds a directive in holds the longest directive without repeated flags: % + every flag character of its switch once + two \'*\' values of 11 characters + the dot + a two-letter length modifier + the conversion + NUL',
     'R9': 'the encoder reads a string argument that has a precision the way printf does: wherever the precision flag of the directive is set (also through \'*\') the argument is not handed to anything that measures it without bound (strlen, the strl* wrappers, strcpy)',
     'R10': 'the decoder appends at its own write position: nothing is added to the output with a function that looks for the end of the string (strcat, strlcat and their wrappers) - a "%c" argument of 0 puts a NUL into the output, and text appended "at the end of the string" lands on top of what was written behind it',
+    'R11': 'a conversion the encoder does not know ends the argument list: the edge of its directive switch that no case takes leads out of the function, not back into the scanning loop - how much an unknown conversion takes from the list is unknown, and every argument behind it would be taken for something it is not (a number for the pointer of a %s)',
 }
-FLOORS = {'R1': 12, 'R2': 20, 'R3': 20, 'R4': 2, 'R5': 12, 'R6': 1, 'R7': 1, 'R8': 1, 'R9': 2, 'R10': 1}
+FLOORS = {'R1': 12, 'R2': 20, 'R3': 20, 'R4': 2, 'R5': 12, 'R6': 1, 'R7': 1, 'R8': 1, 'R9': 2, 'R10': 1, 'R11': 1}
 
 
 def strl_summary(an, ev, st):
@@ -241,6 +242,7 @@ def run(ctx):
     r7(ctx, d)
     r9(ctx, e)
     r10(ctx, d)
+    r11(ctx, e)
 
 
 def _switch_block(f):
@@ -498,17 +500,37 @@ def r5(ctx):
     calls = list(f.calls('qb_vsnprintf_serialize'))
     if not calls:
         raise AnalysisBroken('_blackbox_vlogger: no serialize call')
+    al = [st for st in f.events('STORE') if st.rhs is not None and callee_of(unwrap(st.rhs)) == 'qb_rb_chunk_alloc']
+    if len(al) != 1:
+        raise AnalysisBroken('_blackbox_vlogger: chunk reservations = %d' % len(al))
+    sz = unwrap(unwrap(al[0].rhs)['args'][1])
+    srcs, entry = value_sources(f, sz, al[0])
+    addends = set()
+    for s_ in srcs:
+        if s_.get('k') == 'bin' and s_['op'] == '+':
+            addends |= {estr(unwrap(s_['l'])), estr(unwrap(s_['r']))}
+
+    def within_line_limit(e):
+        # max_line_length itself, or min(max_line_length, x) - possibly through a local
+        u = unwrap(e)
+        if field_is(u, 'max_line_length'):
+            return True
+        if u.get('k') == 'cond':
+            return any(field_is(unwrap(x), 'max_line_length') for x in (u['t'], u['f'])) and \
+                any(field_is(n, 'max_line_length') for n in walk(u['c']))
+        if u.get('k') == 'var' and u.get('sc') == 'l':
+            ss, en = value_sources(f, u, al[0])
+            ss = [x for x in ss if x.get('k') != 'update']
+            return bool(ss) and not en and all(x is not u and within_line_limit(x) for x in ss)
+        return False
     for ev in calls:
         cap = unwrap(ev.args[1])
-        ctx.check('R5', 'serialize-capacity<=reserved', field_is(cap, 'max_line_length'), ev, 'the encoder is given max_line_length, which is what was reserved',
-                  'the encoder is given %s but only header + max_line_length bytes were reserved from the ring' % estr(cap))
-    al = [st for st in f.events('STORE') if st.rhs is not None and callee_of(unwrap(st.rhs)) == 'qb_rb_chunk_alloc']
-    ok = len(al) == 1
-    if ok:
-        sz = unwrap(unwrap(al[0].rhs)['args'][1])
-        srcs, entry = value_sources(f, sz, al[0])
-        ok = any(s.get('k') == 'bin' and s['op'] == '+' and (field_is(s['r'], 'max_line_length') or field_is(s['l'], 'max_line_length')) for s in srcs)
-    ctx.check('R5', 'reservation=header+max_line_length', ok, al[0] if al else f, 'the reserved chunk is header + max_line_length', 'the reserved chunk size is not header + max_line_length')
+        ctx.check('R5', 'serialize-capacity<=reserved', estr(cap) in addends and within_line_limit(cap), ev,
+                  'the encoder is given %s: what was added to the header size in the reservation, and at most max_line_length' % estr(cap),
+                  'the encoder is given %s, which is not the message room that was reserved from the ring (header + %s)' % (estr(cap), ' / '.join(sorted(addends))))
+    ok = any(within_line_limit({'k': 'var', 'n': a_, 'sc': 'l'}) or 'max_line_length' in a_ for a_ in addends)
+    ctx.check('R5', 'reservation=header+max_line_length', ok, al[0], 'the reserved chunk is header + the message room (at most max_line_length)',
+              'the reserved chunk size is not header + a message room bounded by max_line_length')
     # every copy into the reserved chunk and the committed length stay inside the reservation, fitting message or not (= C11.R3)
     from rules import c11
     sub = type(ctx)(prog, ctx.prop, ctx.tier, ctx.depth)
@@ -694,3 +716,34 @@ def r10(ctx, d):
     ctx.check('R10', 'decoder-appends-at-its-position', not bad, bad[0] if bad else d, 'the output is only written at &%s[position]' % out,
               'the decoder appends to the output with %s, which starts at the first NUL of the output: after a "%%c" argument of 0 the rest of the message is written over '
               'what follows that NUL ("a%%cb%%dc" with 0, 5 decodes to "ac")' % (bad[0].callee if bad and bad[0].kind == 'CALL' else 'a strcat-like call'))
+
+
+def r11(ctx, e):
+    sw = _switch_block(e)
+    loops = e.natural_loops()
+    hs = [h for h in loops if sw.id in loops[h]]
+    if not hs:
+        raise AnalysisBroken('%s: directive loop not found' % e.name)
+    outer = max(hs, key=lambda h: len(loops[h]))
+    others = [(t, lab) for (t, lab) in sw.succs if not (isinstance(lab, tuple) and lab[0] == 'case')]
+    if not others:
+        raise AnalysisBroken('%s: the switch has no edge for "no case matched"' % e.name)
+    back = False
+    for (t, lab) in others:
+        seen, work = set(), [t]
+        while work:
+            b = work.pop()
+            if b in seen:
+                continue
+            seen.add(b)
+            if b == outer or b == sw.id:
+                back = True
+                break
+            blk = e.blocks[b]
+            if blk.noreturn or b == e.exit:
+                continue
+            work.extend(x for (x, _l) in blk.succs)
+    ctx.check('R11', 'unknown-conversion-ends-the-arguments', not back, '%s:%d (%s)' % (e.file, sw.term_ln, e.name),
+              'when no case matches the encoder returns',
+              'a conversion the encoder does not know is skipped without taking its argument and the scan goes on: every later directive gets the argument of its '
+              'predecessor - "%Lf ... %s" makes strlen run on part of the long double (SIGSEGV while logging with the blackbox enabled)')
